@@ -11,6 +11,8 @@ JudgeLocate(e) == /\ e.out.k = "ok"
                   /\ e.out.reader_chunked = Locate(e.args.file)      \* the same through a source that returns short reads
                   /\ e.out.slice = Locate(e.args.file)
                   /\ e.out.view = Locate(e.args.file)
+                  \* views with a history (index built completely / partly, slices taken, cloned, asked twice, from_string)
+                  /\ \A k \in DOMAIN e.out.views : e.out.views[k] = Locate(e.args.file)
 JudgeDataUrl(e) ==
     /\ e.out.k = "ok"
     /\ e.out.direct.k = "ok" /\ RoundTripEq(e.args.p1, e.out.direct)            \* to_data_url -> decode_data_url
